@@ -255,7 +255,8 @@ func (g *G) expr(ty string, d int) string {
 			return "[" + strings.Join(es, ", ") + "]"
 		case 3:
 			g.tag("range")
-			return "(" + g.expr("int", 0) + ".." + g.expr("int", 0) + ")"
+			// bounds stay small: a range of billions is outside the property (memory)
+			return "(" + Pick(g.r, []string{"0", "1", "2", "Count", "-1", "3"}) + ".." + Pick(g.r, []string{"0", "1", "3", "5", "Count", "10"}) + ")"
 		case 4:
 			g.tag("split")
 			return "split(" + g.expr("str", d-1) + ", " + Pick(g.r, []string{"\",\"", "\" \"", "\"\"", "\"b\""}) + ")"
@@ -635,6 +636,9 @@ func Generate(prop, tier string, seed uint64) []GenCase {
 		out = genSmoke(seed)
 	case "prog":
 		out = genPrograms("S-prog", seed, 300*scale, 5, []string{"tokens", "ast", "code"})
+	case "C10":
+		out = genBuiltinCalls("S-builtin", seed, 6*scale)
+		out = append(out, genPrograms("S-prog", seed+1, 100*scale, 5, nil)...)
 	default:
 		out = genSmoke(seed)
 	}
